@@ -3,7 +3,7 @@ Decided (thin): R1 the centre is the inverse projection, on the cell's own face,
 get_pentagon(decode(cell)); R2 get_pentagon (used for centre and boundary) and a5cell_contains_point (used by
 the lookup) build the cell geometry with the same constructors, thresholds and quintant.
 Not decided: the round trip itself (composition of C15, C17 and the probe search; numerical)."""
-from ..terms import fn_terms, fmt, strip_site, walk, const_int
+from ..terms import fn_terms, fmt, strip_site, strip_all, walk, const_int
 from ..query import ieval, Undetermined
 from ..run import where
 from .cell_common import *
@@ -37,7 +37,7 @@ def dispatch(facts, path):
                         regime = ("eq", ieval(ft, side[0], {}))
                     except Undetermined:
                         regime = ("eq", fmt(side[0]))
-        out.setdefault(regime, []).append((c.callee, tuple(strip_site(a) for a in c.args), c))
+        out.setdefault(regime, []).append((c.callee, tuple(strip_all(a) for a in c.args), c))
     return out
 
 
